@@ -159,12 +159,28 @@ func (w *Walker) Walk(
 		)
 		w.cancelAll()
 
-		if w.failFastTriggered {
-			return w.completions, nil
+		// Routines that are still running keep recording completions, so hand
+		// the caller a copy instead of the live map.
+		completions, failFastTriggered := w.snapshotCompletions()
+		if failFastTriggered {
+			return completions, nil
 		} else {
-			return w.completions, ctx.Err()
+			return completions, ctx.Err()
 		}
 	}
+}
+
+// snapshotCompletions returns a copy of the completions recorded so far and
+// whether fail-fast was triggered.
+func (w *Walker) snapshotCompletions() (CompletionMap, bool) {
+	w.doneMutex.Lock()
+	defer w.doneMutex.Unlock()
+
+	snapshot := make(CompletionMap, len(w.completions))
+	for nodeLabel, completion := range w.completions {
+		snapshot[nodeLabel] = completion
+	}
+	return snapshot, w.failFastTriggered
 }
 
 // cancelNode cancels a target if it is present in the graph (not idempotent!)
